@@ -254,8 +254,13 @@ where
                         take!(DateToken::Colon);
                         let m = take!(DateToken::Number(s, None), s);
                         if let Some(m) = parse_range(&m, 2, 0..=59) {
-                            out.offset = Some(s * (h * 3600 + m * 60));
-                            Ok(())
+                            match h.checked_mul(3600).and_then(|h| h.checked_add(m * 60)) {
+                                Some(secs) => {
+                                    out.offset = Some(s * secs);
+                                    Ok(())
+                                }
+                                None => Err(format!("Offset {}:{:02} is out of range", h, m)),
+                            }
                         } else {
                             Err(format!("Expected 2 digits after : in offset, got {}", m))
                         }
@@ -385,9 +390,11 @@ fn attempt(
             _ => Err(("Failed to construct a useful datetime".to_string(), count)),
         }
     } else {
-        let offset = parsed
-            .to_fixed_offset()
-            .unwrap_or_else(|_| FixedOffset::east_opt(0).unwrap());
+        let offset = match parsed.offset {
+            None => FixedOffset::east_opt(0).unwrap(),
+            Some(secs) => FixedOffset::east_opt(secs)
+                .ok_or_else(|| ("Offset must be less than 24 hours".to_string(), count))?,
+        };
         match (time, date) {
             (Ok(time), Ok(date)) => offset
                 .from_local_datetime(&date.and_time(time))
